@@ -120,7 +120,7 @@ class ExprMixin:
     def builtin_name(self, name):
         if name in self.exc_h:
             return VExcClass(name)
-        if name in BUILTIN_NAMES:
+        if name in BUILTIN_NAMES or name == "__probe__":
             return VBuiltin(name)
         if name in ("True", "False", "None"):
             return const({"True": True, "False": False, "None": None}[name])
